@@ -807,4 +807,393 @@ theorem reproduces_of_faithful (vs : Variants) (hall : ReproducesAll vs) (tbl : 
   rw [e, ← reproduces_congr_headers tbl p.method p.url p.body v p.headers hs hh]
   exact hall tbl (preparedReq p v) hwf
 
+/-! ### `get_excluded_headers()`: which entries the table can have -/
+
+/-- the two "set item" functions are one function of the key normalisation -/
+def gSet {α : Type} (f : Str → Str) : List (Str × α) → Str → α → List (Str × α)
+  | [], k, v => [(k, v)]
+  | (k', v') :: rest, k, v => if f k' = f k then (k, v) :: rest else (k', v') :: gSet f rest k v
+
+theorem dSet_eq_gSet {α : Type} (t : List (Str × α)) (k : Str) (v : α) : dSet t k v = gSet id t k v := by
+  induction t with
+  | nil => rfl
+  | cons e rest ih => obtain ⟨k', v'⟩ := e; simp [dSet, gSet, ih]
+
+theorem cidSet_eq_gSet (t : Table) (k : Str) (v : Option Str) : cidSet t k v = gSet lower t k v := by
+  induction t with
+  | nil => rfl
+  | cons e rest ih => obtain ⟨k', v'⟩ := e; simp [cidSet, gSet, ih]
+
+def Uniq {α : Type} (f : Str → Str) (t : List (Str × α)) : Prop := t.Pairwise fun a b => f a.1 ≠ f b.1
+
+theorem gSet_mem {α : Type} (f : Str → Str) (t : List (Str × α)) (k : Str) (v : α) (x : Str × α)
+    (hx : x ∈ gSet f t k v) : x = (k, v) ∨ x ∈ t := by
+  induction t with
+  | nil => simp [gSet] at hx; exact Or.inl hx
+  | cons e rest ih =>
+    obtain ⟨k', v'⟩ := e
+    by_cases h : f k' = f k
+    · simp only [gSet, h, if_true, List.mem_cons] at hx
+      rcases hx with hx | hx
+      · exact Or.inl hx
+      · exact Or.inr (by simp [hx])
+    · simp only [gSet, h, if_false, List.mem_cons] at hx
+      rcases hx with hx | hx
+      · exact Or.inr (by simp [hx])
+      · rcases ih hx with h1 | h1
+        · exact Or.inl h1
+        · exact Or.inr (by simp [h1])
+
+theorem gSet_uniq {α : Type} (f : Str → Str) (t : List (Str × α)) (k : Str) (v : α) (hu : Uniq f t) :
+    Uniq f (gSet f t k v) := by
+  induction t with
+  | nil => simp [gSet, Uniq]
+  | cons e rest ih =>
+    obtain ⟨k', v'⟩ := e
+    have hu' := List.pairwise_cons.1 hu
+    by_cases h : f k' = f k
+    · simp only [gSet, h, if_true]
+      exact List.pairwise_cons.2 ⟨fun b hb => by have := hu'.1 b hb; simpa [h] using this, hu'.2⟩
+    · simp only [gSet, h, if_false]
+      refine List.pairwise_cons.2 ⟨fun b hb => ?_, ih hu'.2⟩
+      rcases gSet_mem f rest k v b hb with rfl | hb'
+      · exact h
+      · exact hu'.1 b hb'
+
+/-- in a dict with unique keys the entry under the key just set is the one just set -/
+theorem gSet_mem_key {α : Type} (f : Str → Str) (t : List (Str × α)) (k : Str) (v : α) (x : Str × α) (hu : Uniq f t)
+    (hx : x ∈ gSet f t k v) (hk : f x.1 = f k) : x = (k, v) := by
+  induction t with
+  | nil => simpa [gSet] using hx
+  | cons e rest ih =>
+    obtain ⟨k', v'⟩ := e
+    have hu' := List.pairwise_cons.1 hu
+    by_cases h : f k' = f k
+    · simp only [gSet, h, if_true, List.mem_cons] at hx
+      rcases hx with hx | hx
+      · exact hx
+      · exact absurd (h.trans hk.symm) (hu'.1 x hx)
+    · simp only [gSet, h, if_false, List.mem_cons] at hx
+      rcases hx with hx | hx
+      · subst hx; exact absurd hk h
+      · exact ih hu'.2 hx
+
+theorem gFold_mem {α : Type} (f : Str → Str) (items acc : List (Str × α)) (x : Str × α)
+    (hx : x ∈ items.foldl (fun t kv => gSet f t kv.1 kv.2) acc) : x ∈ acc ∨ x ∈ items := by
+  induction items generalizing acc with
+  | nil => exact Or.inl hx
+  | cons kv rest ih =>
+    rcases ih _ hx with h | h
+    · rcases gSet_mem f acc kv.1 kv.2 x h with h1 | h1
+      · exact Or.inr (by simp [h1])
+      · exact Or.inl h1
+    · exact Or.inr (by simp [h])
+
+theorem gFold_uniq {α : Type} (f : Str → Str) (items acc : List (Str × α)) (hu : Uniq f acc) :
+    Uniq f (items.foldl (fun t kv => gSet f t kv.1 kv.2) acc) := by
+  induction items generalizing acc with
+  | nil => exact hu
+  | cons kv rest ih => exact ih _ (gSet_uniq f acc kv.1 kv.2 hu)
+
+theorem pyDict_eq {α : Type} (items : List (Str × α)) :
+    pyDict items = items.foldl (fun t kv => gSet id t kv.1 kv.2) [] := by
+  unfold pyDict
+  congr 1
+  funext t kv
+  exact dSet_eq_gSet t kv.1 kv.2
+
+theorem cidOf_eq (items : List (Str × Option Str)) :
+    cidOf items = items.foldl (fun t kv => gSet lower t kv.1 kv.2) [] := by
+  unfold cidOf
+  congr 1
+  funext t kv
+  exact cidSet_eq_gSet t kv.1 kv.2
+
+theorem sameName_iff (a b : Str) : sameName a b = true ↔ lower a = lower b := by simp [sameName]
+
+/-- every entry of the table `get_excluded_headers()` builds: one of the three "never shown" names, the transport's
+    own `User-Agent`, or one of the defaults `requests` reports (other than its `User-Agent`, which is overwritten) -/
+theorem excludedTable_entry (defaults : List (Str × Str)) (ua h : Str) (e : Str × Option Str)
+    (hspell : ∀ kv ∈ defaults, sameName kv.1 userAgent = true → kv.1 = userAgent)
+    (he : e ∈ excludedTable defaults ua h) :
+    (e.2 = none ∧ (e.1 = contentLength ∨ e.1 = transferEncoding ∨ e.1 = h)) ∨ e = (userAgent, some ua)
+      ∨ ∃ kv ∈ defaults, e = (kv.1, some kv.2) ∧ sameName kv.1 userAgent = false := by
+  unfold excludedTable at he
+  rw [cidOf_eq] at he
+  have h1 : e ∈ pyDict (excludedItems defaults ua h) := by
+    rcases gFold_mem lower _ [] e he with h0 | h0
+    · simp at h0
+    · exact h0
+  unfold excludedItems at h1
+  rw [pyDict_eq, List.foldl_append] at h1
+  simp only [List.foldl_cons, List.foldl_nil] at h1
+  by_cases hk : e.1 = userAgent
+  · right; left
+    exact gSet_mem_key id _ userAgent (some ua) e (gFold_uniq id _ [] (by simp [Uniq])) h1 (by simpa using hk)
+  · rcases gSet_mem id _ _ _ e h1 with h2 | h2
+    · exact absurd (by rw [h2]) hk
+    · rcases gFold_mem id _ [] e h2 with h3 | h3
+      · simp at h3
+      · rcases List.mem_append.1 h3 with h4 | h4
+        · left
+          simp only [List.mem_cons, List.mem_nil_iff, or_false] at h4
+          rcases h4 with rfl | rfl | rfl <;> simp
+        · right; right
+          obtain ⟨kv, hkv, rfl⟩ := List.mem_map.1 h4
+          refine ⟨kv, hkv, rfl, ?_⟩
+          cases hs : sameName kv.1 userAgent with
+          | false => rfl
+          | true => exact absurd (hspell kv hkv hs) hk
+
+theorem isArtefact_congr (c : Clients) (k1 k2 v : Str) (h : lower k1 = lower k2) :
+    isArtefact c (k1, v) = isArtefact c (k2, v) := by
+  simp only [isArtefact, sameName, h]
+
+theorem onWire_congr (w : List (Str × Str)) (k1 k2 v : Str) (h : lower k1 = lower k2) :
+    onWire w (k1, v) = onWire w (k2, v) := by
+  simp only [onWire, sameName, h]
+
+theorem mayOmit_congr (c : Clients) (o : Original) (k1 k2 v : Str) (h : lower k1 = lower k2) :
+    mayOmit c o (k1, v) = mayOmit c o (k2, v) := by
+  simp only [mayOmit, curlAddsSame, onWire_congr _ k1 k2 v h, isArtefact_congr c k1 k2 v h]
+
+theorem isAutoValued_iff (tbl : Table) (k v : Str) :
+    isAutoValued tbl k v = true ↔ ∃ e ∈ tbl, lower e.1 = lower k ∧ (e.2 = none ∨ e.2 = some v) := by
+  simp only [isAutoValued, List.any_eq_true, Bool.and_eq_true, beq_iff_eq]
+  constructor
+  · rintro ⟨e, he, h1, h2⟩
+    refine ⟨e, he, h1, ?_⟩
+    cases h : e.2 with
+    | none => exact Or.inl rfl
+    | some d => simp only [h, beq_iff_eq] at h2; exact Or.inr (by rw [h2])
+  · rintro ⟨e, he, h1, h2⟩
+    refine ⟨e, he, h1, ?_⟩
+    rcases h2 with h2 | h2 <;> simp [h2]
+
+/-- the specification's table says exactly `mayOmit` -/
+theorem specAuto_isAuto (c : Clients) (o : Original) (kv : Str × Str) :
+    isAuto (specAuto c o) kv = mayOmit c o kv := by
+  simp only [isAuto, isAutoValued, specAuto, mayOmit, curlAddsSame, onWire, isArtefact, sameName, List.any_append,
+    List.any_map, Function.comp_def, Bool.and_true, List.any_cons, List.any_nil, Bool.or_false]
+  generalize (framingNames.any fun n => lower n == lower kv.1) = a
+  generalize (lower c.caseIdHeader == lower kv.1) = b
+  generalize (c.requestsOwn.any fun o => lower o.1 == lower kv.1 && o.2 == kv.2) = d
+  generalize ((curlOwn c o.url (bodyOf o.body)).any fun w => lower w.1 == lower kv.1 && w.2 == kv.2) = e
+  cases a <;> cases b <;> cases d <;> cases e <;> rfl
+
+/-- the two fields curl adds to every request are in its own list whatever the URL and the data -/
+theorem curlOwn_static (c : Clients) (url : Str) (data : Option Str) (kv : Str × Str)
+    (h : kv = (userAgent, c.curlAgent) ∨ kv = ("Accept".toList, "*/*".toList)) : kv ∈ curlOwn c url data := by
+  unfold curlOwn
+  rcases h with rfl | rfl <;> simp
+
+theorem staticAuto_sub (c : Clients) (o : Original) (k v : Str) (h : isAutoValued (staticAuto c) k v = true) :
+    mayOmit c o (k, v) = true := by
+  rw [← specAuto_isAuto]
+  simp only [isAuto]
+  rw [isAutoValued_iff] at h ⊢
+  obtain ⟨e, he, h1, h2⟩ := h
+  refine ⟨e, ?_, h1, h2⟩
+  simp only [staticAuto, specAuto, List.mem_append, List.mem_map] at he ⊢
+  rcases he with he | ⟨kv, hkv, rfl⟩
+  · exact Or.inl he
+  · right
+    rcases hkv with hkv | hkv
+    · exact ⟨kv, Or.inl hkv, rfl⟩
+    · refine ⟨kv, Or.inr (curlOwn_static c _ _ kv ?_), rfl⟩
+      simpa using hkv
+
+/-! ### every header field curl sends for the command's argument vector -/
+
+theorem headerTextsGo_append (st : CurlSt) (a b : List Str) :
+    headerTextsGo st (a ++ b) = headerTextsGo st a ++ headerTextsGo (a.foldl curlStep st) b := by
+  induction a generalizing st with
+  | nil => simp [headerTextsGo]
+  | cons x xs ih => simp [headerTextsGo, ih, List.append_assoc]
+
+theorem headerTextsGo_headerArgs (v : Variant) (hs : List (Str × Str)) (hok : ∀ kv ∈ hs, nameOk kv.1 = true)
+    (m : Option Str) (hd : List (Str × Str)) (d : Option Str) (i g : Bool) (u : List Str) (rf un : Bool) :
+    headerTextsGo ⟨.none, m, hd, d, i, g, u, rf, un⟩ (headerArgs v hs) = hs.map fun kv => headerArg v kv.1 kv.2 := by
+  induction hs generalizing hd with
+  | nil => simp [headerArgs, headerTextsGo]
+  | cons kv rest ih =>
+    have hk := hok kv (by simp)
+    have hat := headerArg_noAt v kv.1 kv.2 hk
+    have hcl : classify ['-', 'H'] = .header := by decide
+    have hsplit : headerArgs v (kv :: rest) = ['-', 'H'] :: headerArg v kv.1 kv.2 :: headerArgs v rest := by
+      simp [headerArgs]
+    rw [hsplit]
+    have ih' := ih (fun x hx => hok x (by simp [hx]))
+    cases hsent : headerSent (headerArg v kv.1 kv.2) with
+    | none => simp [headerTextsGo, curlStep, hcl, hat, hsent, ih']
+    | some x => simp [headerTextsGo, curlStep, hcl, hat, hsent, ih']
+
+/-- the `-H` texts of the command are the texts printed for the kept headers, nothing else -/
+theorem headerTexts_argvOf (vs : Variants) (tbl : Table) (r : Req) (hwf : wf r = true) :
+    headerTexts (argvOf vs tbl r)
+      = (filterHeaders vs.filter tbl r.known r.headers).map fun kv => headerArg vs.emptyHeader kv.1 kv.2 := by
+  obtain ⟨method, url, body, verify, headers, known⟩ := r
+  obtain ⟨ve, vd, vf⟩ := vs
+  simp only [wf, Bool.and_eq_true, List.all_eq_true] at hwf
+  obtain ⟨⟨⟨_, hurl⟩, _⟩, hhs⟩ := hwf
+  simp only at hurl hhs ⊢
+  have hkept : ∀ kv ∈ filterHeaders vf tbl known headers, nameOk kv.1 = true := by
+    intro kv hkv
+    exact (hhs kv (List.mem_filter.1 hkv).1).1
+  have hX : classify ['-', 'X'] = .request := by decide
+  have hd : classify ['-', 'd'] = .data := by decide
+  have hraw : classify "--data-raw".toList = .dataRaw := by decide
+  have hins : classify "--insecure".toList = .insecure := by decide
+  simp only [String.reduceToList] at hraw hins
+  have hu := classify_url url hurl
+  unfold headerTexts argvOf
+  simp only [headerTextsGo]
+  have h0 : curlStep (curlStep CurlSt.init ['-', 'X']) method = ⟨.none, some method, [], none, false, false, [], false, false⟩ := by
+    simp [curlStep, CurlSt.init, hX]
+  have hp0 : CurlSt.init.pending = .none := rfl
+  have hp1 : (curlStep CurlSt.init ['-', 'X']).pending = .request := by simp [curlStep, CurlSt.init, hX]
+  simp only [hp0, hp1, h0, List.append_assoc]
+  rw [headerTextsGo_append, headerTextsGo_headerArgs ve _ hkept, fold_headerArgs ve _ hkept]
+  have htail : ∀ hd0 : List (Str × Str),
+      headerTextsGo ⟨.none, some method, hd0, none, false, false, [], false, false⟩
+        (dataArgs vd body ++ (insecureArgs verify ++ [url])) = [] := by
+    intro hd0
+    cases body with
+    | none => cases verify <;> simp [dataArgs, insecureArgs, headerTextsGo, curlStep, hins]
+    | some b =>
+      cases b with
+      | nil => cases verify <;> simp [dataArgs, insecureArgs, headerTextsGo, curlStep, hins]
+      | cons ch cs =>
+        by_cases hat : startsWithAt (ch :: cs) = true
+        · cases vd <;> cases verify <;>
+            simp [dataArgs, insecureArgs, headerTextsGo, curlStep, hins, hd, hraw, hat, addData]
+        · cases vd <;> cases verify <;>
+            simp [dataArgs, insecureArgs, headerTextsGo, curlStep, hins, hd, hat, addData]
+  simp [htail]
+
+theorem takeWhile_stop (p : Char → Bool) (k : Str) (x : Char) (t : Str) (hk : ∀ c ∈ k, p c = true) (hx : p x = false) :
+    (k ++ x :: t).takeWhile p = k := by
+  induction k with
+  | nil => simp [hx]
+  | cons c cs ih =>
+    have := ih (fun y hy => hk y (by simp [hy]))
+    simp [hk c (by simp), this]
+
+/-- the text printed for a kept header addresses the field of that name -/
+theorem textName_headerArg (v : Variant) (k val : Str) (hk : nameOk k = true) : textName (headerArg v k val) = k := by
+  obtain ⟨_, hcol, hsemi, _, _⟩ := nameOk_facts k hk
+  have hall : ∀ c ∈ k, (!(c == ':' || c == ';')) = true := by
+    intro c hc
+    have h1 : c ≠ ':' := fun e => hcol (e ▸ hc)
+    have h2 : c ≠ ';' := fun e => hsemi (e ▸ hc)
+    simp [h1, h2]
+  unfold textName
+  cases v with
+  | asFound => exact takeWhile_stop _ k ':' _ hall (by decide)
+  | repaired =>
+    by_cases he : val.isEmpty = true
+    · simp only [headerArg, he, if_true]; exact takeWhile_stop _ k ';' [] hall (by decide)
+    · simp only [headerArg, he, Bool.false_eq_true, if_false]; exact takeWhile_stop _ k ':' _ hall (by decide)
+
+theorem sameName_symm (a b : Str) : sameName a b = sameName b a := by
+  rw [Bool.eq_iff_iff, sameName_iff, sameName_iff]; exact eq_comm
+
+theorem namesUnique_eq (l : List (Str × Str)) (h : namesUnique l = true) (a b : Str × Str) (ha : a ∈ l) (hb : b ∈ l)
+    (hs : sameName a.1 b.1 = true) : a = b := by
+  induction l with
+  | nil => simp at ha
+  | cons x rest ih =>
+    simp only [namesUnique, Bool.and_eq_true, Bool.not_eq_true', List.any_eq_false] at h
+    obtain ⟨h1, h2⟩ := h
+    simp only [List.mem_cons] at ha hb
+    rcases ha with rfl | ha <;> rcases hb with rfl | hb
+    · rfl
+    · exact absurd (by rw [sameName_symm]; exact hs) (h1 b hb)
+    · exact absurd hs (h1 a ha)
+    · exact ih h2 ha hb
+
+/-- For the commands `generate` prints (empty values as `k;`): the verdict of the table form of the property,
+    taken with the specification's own table, is a verdict about the fields on the wire. -/
+theorem onWire_of_table (c : Clients) (vd vf : Variant) (tbl : Table) (r : Req) (hwf : wf r = true)
+    (hu : namesUnique r.headers = true)
+    (h : reproduces (specAuto c (original r)) (original r) (generate ⟨.repaired, vd, vf⟩ tbl r) = true) :
+    reproducesOnWire c (original r) (generate ⟨.repaired, vd, vf⟩ tbl r) = true := by
+  have hm : methodOk r.method = true := by
+    simp only [wf, Bool.and_eq_true] at hwf
+    exact hwf.1.1.1
+  have hall : ∀ kv ∈ r.headers, nameOk kv.1 = true ∧ valueOk kv.2 = true := by
+    simp only [wf, Bool.and_eq_true, List.all_eq_true] at hwf
+    exact hwf.2
+  have hkept : ∀ kv ∈ filterHeaders vf tbl r.known r.headers, nameOk kv.1 = true ∧ valueOk kv.2 = true :=
+    fun kv hkv => hall kv (List.mem_filter.1 hkv).1
+  rw [reproduces_iff _ tbl _ r hwf] at h
+  have hs := sent_eq .repaired _ hkept
+  simp only at hs
+  simp only [hs, Bool.and_eq_true, Bool.not_eq_true', headersOk, List.all_eq_true, Bool.or_eq_true] at h
+  obtain ⟨hnf, hsub, hcov⟩ := h
+  have hcond : ¬ (vd = .asFound ∧ bodyStartsAt (bodyOf r.body) = true) := by
+    rintro ⟨h1, h2⟩
+    simp [h1, h2] at hnf
+  unfold reproducesOnWire
+  rw [generate_eq_render _ tbl r hm, shParse_render _ (argvOf_noNul _ tbl r hwf)]
+  simp only [curlSem_argvOf _ tbl r hwf, hcond, if_false, hs, headerTexts_argvOf _ tbl r hwf]
+  simp only [original, bodyOf_idem, beq_self_eq_true, Bool.true_and, Bool.and_eq_true, List.all_eq_true, Bool.or_eq_true]
+  refine ⟨hsub, ?_⟩
+  intro kv hkv
+  by_cases hin : kv ∈ filterHeaders vf tbl r.known r.headers
+  · left
+    simp only [onWire, wireOf, List.any_append, Bool.or_eq_true, List.any_eq_true, Bool.and_eq_true, beq_iff_eq]
+    exact Or.inr ⟨kv, hin, by simp [sameName], rfl⟩
+  · rcases hcov kv hkv with ha | ha
+    · have hmo : mayOmit c (original r) kv = true := by rw [← specAuto_isAuto]; exact ha
+      simp only [mayOmit, Bool.or_eq_true] at hmo
+      rcases hmo with hc | hc
+      · left
+        simp only [curlAddsSame, onWire, List.any_eq_true, Bool.and_eq_true, beq_iff_eq, original] at hc
+        obtain ⟨d, hd, hdn, hdv⟩ := hc
+        simp only [onWire, wireOf, List.any_append, Bool.or_eq_true, List.any_eq_true, Bool.and_eq_true, beq_iff_eq,
+          List.mem_filter, Bool.not_eq_true']
+        refine Or.inl ⟨d, ⟨hd, ?_⟩, hdn, hdv⟩
+        simp only [addressed, List.any_eq_false, List.mem_map]
+        rintro t ⟨kv', hkv', rfl⟩
+        rw [textName_headerArg _ _ _ (hkept kv' hkv').1]
+        cases hsn : sameName kv'.1 d.1 with
+        | false => simp
+        | true =>
+          exfalso
+          have h1 : sameName kv'.1 kv.1 = true := by
+            rw [sameName_iff] at hsn hdn ⊢
+            exact hsn.trans hdn
+          have := namesUnique_eq r.headers hu kv' kv (List.mem_filter.1 hkv').1 hkv h1
+          exact hin (this ▸ hkv')
+      · exact Or.inr hc
+    · exact absurd (by simpa using ha) hin
+
+/-! ### the clients as measured on this machine, and the explicit `Accept-Encoding` scenario (witnesses, non-vacuity) -/
+
+def wDefaults : List (Str × Str) :=
+  [("User-Agent".toList, "python-requests/2.34.2".toList), ("Accept-Encoding".toList, "gzip, deflate".toList),
+   ("Accept".toList, "*/*".toList), ("Connection".toList, "keep-alive".toList)]
+
+def wCaseId : Str := "X-Schemathesis-TestCaseId".toList
+
+def wClients : Clients :=
+  ⟨"curl/7.88.1".toList,
+   [("User-Agent".toList, "schemathesis/dev".toList), ("Accept-Encoding".toList, "gzip, deflate".toList),
+    ("Accept".toList, "*/*".toList), ("Connection".toList, "keep-alive".toList)], wCaseId⟩
+
+/-- the table `get_excluded_headers()` builds from them -/
+def wTable : Table := excludedTable wDefaults "schemathesis/dev".toList wCaseId
+
+/-- the same with `"Accept-Encoding": None` added after the defaults -/
+def wTableNeverShown : Table := cidSet wTable "Accept-Encoding".toList none
+
+/-- a PUT with a text body, a header of the case and two headers passed to the call (`Accept-Encoding: identity`) -/
+def wIdentityReq : Req :=
+  ⟨"PUT".toList, "http://127.0.0.1:8080/reports/7".toList, some "it's $HOME".toList, true,
+   [("X-Tenant".toList, "blue team".toList), ("User-Agent".toList, "schemathesis/dev".toList),
+    ("Accept-Encoding".toList, "identity".toList), ("Accept".toList, "*/*".toList),
+    ("Connection".toList, "keep-alive".toList), ("Content-Type".toList, "text/plain".toList),
+    ("Content-Length".toList, "10".toList)], []⟩
+
 end SV.Proofs.C09
